@@ -8,6 +8,8 @@ package standard
 //@ type Service
 //@   guarded_by executionConfigMu: executionConfig
 //@   guarded_by builderBidsCacheMu: builderBidsCache
+//@   // (cacheBid, the only writer, enters a slot's map before it stores into it)
+//@   valid forall k string :: in(self.builderBidsCache, k) ==> self.builderBidsCache[k] != nil
 //@   guarded_by latestValidatorRegistrationsMu: latestValidatorRegistrations
 //@   guarded_by signedValidatorRegistrationsMu: signedValidatorRegistrations
 //@   guarded_by controlledValidatorsMu: controlledValidators (replaced)
@@ -159,3 +161,23 @@ package standard
 //@   assumes call UnblindProposal (r, err): (err == nil ==> r != nil) && (err != nil ==> r == nil)
 //@   chaninv ch (m): m != nil
 //@   exit sends() <= 1
+//@
+//@ // ---- C20: the cache of winning bids stays within a window of recent slots ----
+//@ // the slot a cache key stands for (keys are slots printed in decimal; strconv.ParseUint reads them back)
+//@ spec func keySlot(key string) int
+//@ axiom forall x phase0.Slot {sprintf("%d", x)} :: x <= 9223372036854775807 ==> keySlot(sprintf("%d", x)) == x
+//@ spec func isDecimal(key string) bool
+//@ axiom forall x phase0.Slot {sprintf("%d", x)} :: isDecimal(sprintf("%d", x))
+//@ extern strconv.ParseUint
+//@   ensures result1 == nil ==> result0 == keySlot(s)
+//@   ensures isDecimal(s) ==> result1 == nil
+//@
+//@ // caching a bid leaves only the bids of the last 64 slots (and the one just cached) in the cache, whatever it held before
+//@ func (*Service).cacheBid
+//@   requires s != nil && nolocks() && s.builderBidsCache != nil && slot <= 9223372036854775807
+//@   loop 1
+//@     invariant in(s.builderBidsCache, sprintf("%d", slot))
+//@     invariant forall k string :: visited(k) && in(s.builderBidsCache, k) ==> keySlot(k) + 64 >= slot
+//@     invariant forall k string {in(s.builderBidsCache, k)} :: in(s.builderBidsCache, k) ==> k == sprintf("%d", slot) || in(old(s.builderBidsCache), k)
+//@   ensures forall k string {in(s.builderBidsCache, k)} :: in(s.builderBidsCache, k) ==> keySlot(k) + 64 >= slot
+//@   ensures in(s.builderBidsCache, sprintf("%d", slot))
